@@ -14,6 +14,7 @@ RULE = ("random polynomials (2-6 variables quick / 2-8 thorough, degree <= 5 / 6
         "keep_penalty_variables / discard_unsatisfied in {unset, True, False}; non-trivial = at least one product constraint; "
         "distinct by canonical JSON of the case")
 TRUSTED = ["model: coq/theories/Model/Reduce.v, HPoly.v, Poly.v, ChkC15.v (hand written, tied by this correspondence)",
+           "translators/spin_product.py and translators/gates_tables.py (fail-closed ast translators): the product penalties of the theorems are proved equal to the tables they emit from _spin_product / and_gate on every run",
            "HigherOrderComposite rows: Coq re-evaluates the polynomial on a seeded sample of <= 48 rows per case; every row's energy and "
            "the multiplicity of each original assignment are decided in the worker with exact Fractions (Python)",
            "float arithmetic of the implementation is exact on the generated dyadic data (not verified)"]
